@@ -33,7 +33,7 @@ U(id="fib.continue_no_check", **{"class": "full-domain"},
   clause="a resumed fiber moves new/suspended -> alive (the VM is entered only on an ALIVE current fiber without pending child) -> the returned signal: "
          "status on return equals the returned signal; janet_vm.fiber/stackn/return_reg/signal_buf/coerce_error/gc_suspend restored on every path incl. longjmp; "
          "a child signal the child's mask does not accept is re-raised unchanged and not delivered to this fiber; *out == last_value == return register",
-  src=["vm.c"], link=["fiber.c"], link_keep=KEEP, harness=["fib_continue.c"], entry="h_no_check",
+  src=["vm.c"], link=["fiber.c"], link_keep=KEEP, harness=["fib_continue.c"], entry="h_no_check", defines=["-DFIB_ENFORCE_NO_CHECK"],
   mode="dfcc", enforce=["janet_continue_no_check/fib_no_check_c"], replace=RUNVM + ["janet_continue/fib_continue_child_c"], checks=CHK, cbmc=CADICAL, object_bits=8,
   functions=["janet_continue_no_check", "janet_try_init", "janet_restore"],
   assumes=["run_vm (interpreter loop) is replaced by the contract fib_run_vm_c: writes *fiber, janet_vm, *janet_vm.return_reg; returns a signal 0..13",
